@@ -4,50 +4,60 @@ From Coq Require Import List Arith Bool PeanoNat Lia Permutation.
 From Krrood Require Import Onto.RegistrySpec Onto.Registry Onto.RegistryLemmas.
 Import ListNotations.
 
+Lemma deref_some L w o : deref L w = Some o -> mem_obj o L = true /\ w_obj w = o.
+Proof. unfold deref. destruct (mem_obj (w_obj w) L) eqn:E; intros H; inversion H; subst; auto. Qed.
+
+(* what the domain hands out next: never a dead reference, never a value it handed out before *)
 Lemma pull_cur_spec L seen : forall cur v t, pull_cur L seen cur = Some (v, t) ->
-  existsb (oeqb v) seen = false /\ exists w, In w cur /\ v = deref L w.
+  exists w o, In w cur /\ v = Some o /\ deref L w = Some o /\ existsb (oeqb (Some o)) seen = false /\
+              exists pre, cur = pre ++ w :: t.
 Proof.
   induction cur as [|w cur IH]; simpl; intros v t H; [discriminate|].
-  destruct (existsb (oeqb (deref L w)) seen) eqn:E.
-  - destruct (IH _ _ H) as [A [w' [B C]]]. split; auto. exists w'. auto.
-  - inversion H; subst. split; auto. exists w. auto.
+  destruct (deref L w) as [o|] eqn:D.
+  - destruct (existsb (oeqb (Some o)) seen) eqn:E.
+    + destruct (IH _ _ H) as [w' [o' [A [B [C [F [pre G]]]]]]]. exists w', o'. repeat split; auto. exists (w :: pre). now rewrite G.
+    + inversion H; subst. exists w, o. repeat split; auto. exists []. reflexivity.
+  - destruct (IH _ _ H) as [w' [o' [A [B [C [F [pre G]]]]]]]. exists w', o'. repeat split; auto. exists (w :: pre). now rewrite G.
 Qed.
 
 Lemma pull_classes_spec L r seen : forall cs v t cs', pull_classes L r seen cs = Some (v, t, cs') ->
-  existsb (oeqb v) seen = false /\ exists w, In w (wl r) /\ In (w_cls w) cs /\ v = deref L w.
+  exists w o c, In w (wl r) /\ w_cls w = c /\ In c cs /\ v = Some o /\ deref L w = Some o /\
+                existsb (oeqb (Some o)) seen = false /\
+                (forall w', In w' t -> In w' (wl r) /\ w_cls w' = c) /\ (forall c', In c' cs' -> In c' cs).
 Proof.
   induction cs as [|c cs IH]; simpl; intros v t cs' H; [discriminate|].
   destruct (pull_cur L seen (filter (fun w => w_cls w =? c) (wl r))) as [[v' t']|] eqn:E.
-  - inversion H; subst. destruct (pull_cur_spec _ _ _ _ _ E) as [A [w [B C]]]. split; auto.
-    apply filter_In in B. destruct B as [B1 B2]. apply Nat.eqb_eq in B2. exists w. auto.
-  - destruct (IH _ _ _ H) as [A [w [B [C D]]]]. split; auto. exists w. auto.
+  - inversion H; subst. destruct (pull_cur_spec _ _ _ _ _ E) as [w [o [B [C [D [F [pre G]]]]]]].
+    apply filter_In in B. destruct B as [B1 B2]. apply Nat.eqb_eq in B2. exists w, o, c. repeat split; auto.
+    + assert (In w' (filter (fun w => w_cls w =? c) (wl r))) by (rewrite G, in_app_iff; simpl; auto).
+      apply filter_In in H1. tauto.
+    + assert (In w' (filter (fun w => w_cls w =? c) (wl r))) by (rewrite G, in_app_iff; simpl; auto).
+      apply filter_In in H1. destruct H1 as [_ H1]. now apply Nat.eqb_eq in H1.
+  - destruct (IH _ _ _ H) as [w [o [c' [A [B [C [D [F [G [I J]]]]]]]]]]. exists w, o, c'. repeat split; auto. apply I; auto. apply I; auto.
 Qed.
-
-Lemma deref_some L w o : deref L w = Some o -> mem_obj o L = true /\ w_obj w = o.
-Proof. unfold deref. destruct (mem_obj (w_obj w) L) eqn:E; intros H; inversion H; subst; auto. Qed.
 
 Section Live.
   Variable children : cls -> list cls.
   Variable fuel : nat.
   Notation step := (step children fuel).
 
-  (* a row that is an instance: it exists now, and this evaluation has not produced it before *)
-  Theorem next_row_sound s n y o e :
+  (* a row: always an instance, which exists now and which this evaluation has not produced before *)
+  Theorem next_row_sound s n y v e :
     nth_error (evals s) n = Some (Some e) ->
-    snd (step s (NextV n y)) = OInst [Some o] ->
-    mem_obj o (live s) = true /\ (e_started e = true -> ~ In (Some o) (e_seen e)).
+    snd (step s (NextV n y)) = OInst [v] ->
+    exists o, v = Some o /\ mem_obj o (live s) = true /\ (e_started e = true -> ~ In (Some o) (e_seen e)).
   Proof.
     intros Hn. simpl. rewrite Hn. destruct (e_stale e); [discriminate|].
     set (r := if e_started e then g s else sweep (live s) (g s)).
     set (e1 := if e_started e then e else _).
-    destruct (pull (live s) r e1) as [[[v cur] cs]|] eqn:P; simpl; intros H; inversion H; subst.
+    destruct (pull (live s) r e1) as [[[v' cur] cs]|] eqn:P; simpl; intros H; inversion H; subst.
     unfold pull in P.
     assert (Hs : e_seen e1 = e_seen e) by (unfold e1; destruct (e_started e); reflexivity).
-    assert (Q : existsb (oeqb (Some o)) (e_seen e) = false /\ exists w, Some o = deref (live s) w).
+    assert (Q : exists w o, v = Some o /\ deref (live s) w = Some o /\ existsb (oeqb (Some o)) (e_seen e) = false).
     { rewrite <- Hs. destruct (pull_cur (live s) (e_seen e1) (e_cur e1)) as [[v' t']|] eqn:E.
-      - inversion P; subst. destruct (pull_cur_spec _ _ _ _ _ E) as [A [w [_ C]]]. eauto.
-      - destruct (pull_classes_spec _ _ _ _ _ _ _ P) as [A [w [_ [_ C]]]]. eauto. }
-    destruct Q as [A [w C]]. symmetry in C. apply deref_some in C. split; [tauto|].
+      - inversion P; subst. destruct (pull_cur_spec _ _ _ _ _ E) as [w [o [_ [B [C [D _]]]]]]. eauto.
+      - destruct (pull_classes_spec _ _ _ _ _ _ _ P) as [w [o [c [_ [_ [_ [B [C [D _]]]]]]]]]. eauto. }
+    destruct Q as [w [o [-> [C A]]]]. apply deref_some in C. exists o. split; auto. split; [tauto|].
     intros _ Hin. assert (existsb (oeqb (Some o)) (e_seen e) = true); [|congruence].
     apply existsb_exists. exists (Some o). split; auto. now apply oeqb_eq.
   Qed.
